@@ -105,12 +105,9 @@ func (fr *Frame) collectMods(nodes []ast.Node, declaredInside map[*types.Var]boo
 					markLhs(s.Value)
 				}
 			case *ast.SendStmt:
-				ms.heapKeys[x.nsentKey(x.chanElemSort(fr.typeOf(s.Chan)))] = true
-				if ct, ok := fr.typeOf(s.Chan).Underlying().(*types.Chan); ok {
-					key := "chan.last." + sortId(x.u.sortOf(ct.Elem()))
-					x.u.regHeap(key, "(Array Int "+x.u.sortOf(ct.Elem())+")")
-					ms.heapKeys[key] = true
-				}
+				nk, lk, _ := x.chanKeys(chanElem(fr.typeOf(s.Chan)))
+				ms.heapKeys[nk] = true
+				ms.heapKeys[lk] = true
 			case *ast.UnaryExpr:
 				if s.Op == token.AND {
 					// &x passed somewhere: x may be written through the pointer
@@ -172,7 +169,8 @@ func (fr *Frame) callMods(c *ast.CallExpr, ms *modSet, markLhs func(ast.Expr)) {
 					ms.heapKeys[val] = true
 				}
 				if _, ok := fr.typeOf(c.Args[0]).Underlying().(*types.Chan); ok {
-					ms.heapKeys[x.nsentKey(x.chanElemSort(fr.typeOf(c.Args[0])))] = true
+					nk, _, _ := x.chanKeys(chanElem(fr.typeOf(c.Args[0])))
+					ms.heapKeys[nk] = true
 				}
 			case "new":
 				t := fr.typeOf(c.Args[0])
@@ -210,7 +208,7 @@ func (fr *Frame) callMods(c *ast.CallExpr, ms *modSet, markLhs func(ast.Expr)) {
 	if x.eng.isPurePkg(fn) {
 		return
 	}
-	if ct := x.eng.findContract(fn); ct != nil {
+	if ct := x.eng.findContract(fn); ct != nil && !ct.InlineAtCallers {
 		if !ct.ModifiesSet {
 			return
 		}
@@ -665,6 +663,7 @@ func (fr *Frame) runAt(st *State, key string, s ast.Node) {
 		if normKey(as.Key) != key {
 			continue
 		}
+		fr.x.atHits[as] = true
 		for _, use := range as.Uses {
 			fr.useLemma(st, use, s)
 		}
@@ -762,6 +761,7 @@ func (fr *Frame) atAfter(st *State, s ast.Stmt) {
 		if normKey(as.Key) != key {
 			continue
 		}
+		fr.x.atHits[as] = true
 		for _, a := range as.Assumes {
 			env := fr.specEnv(st)
 			t, err := fr.evalClause(env, a)
